@@ -37,14 +37,14 @@ func (f *fakeBackend) Register(s []string) error {
 	f.mu.Unlock()
 	return nil
 }
-func (f *fakeBackend) DeregisterAll() error                         { return nil }
-func (f *fakeBackend) Deregister(string) error                      { return nil }
-func (f *fakeBackend) ManualPaths() ([]string, error)               { return nil, nil }
-func (f *fakeBackend) ReadManual(string) (string, uint64, error)    { return "", 0, nil }
+func (f *fakeBackend) DeregisterAll() error                             { return nil }
+func (f *fakeBackend) Deregister(string) error                          { return nil }
+func (f *fakeBackend) ManualPaths() ([]string, error)                   { return nil, nil }
+func (f *fakeBackend) ReadManual(string) (string, uint64, error)        { return "", 0, nil }
 func (f *fakeBackend) WriteManual(string, string, uint64) (bool, error) { return true, nil }
-func (f *fakeBackend) WatchServices() chan string                   { return f.svc }
-func (f *fakeBackend) WatchManual() chan string                     { return f.man }
-func (f *fakeBackend) WatchNoRouteHTML() chan string                { return f.html }
+func (f *fakeBackend) WatchServices() chan string                       { return f.svc }
+func (f *fakeBackend) WatchManual() chan string                         { return f.man }
+func (f *fakeBackend) WatchNoRouteHTML() chan string                    { return f.html }
 
 var (
 	loopOnce sync.Once
@@ -80,7 +80,9 @@ func dumpTable(tbl route.Table) string {
 
 type svcInst struct{ svc, host, path, dst string }
 
-func (s svcInst) line() string { return fmt.Sprintf("route add %s %s%s %s", s.svc, s.host, s.path, s.dst) }
+func (s svcInst) line() string {
+	return fmt.Sprintf("route add %s %s%s %s", s.svc, s.host, s.path, s.dst)
+}
 
 // TestC02bUpdateHistory: every finite sequence of valid and invalid service /
 // manual updates through the real loop: an invalid update leaves the active
